@@ -37,6 +37,12 @@ CLAIMED["C12"] = dict(
    technique="symbolic execution of go/ssa; inductive invariant step + bounded history enumeration",
    ref="DESIGN.md §5 C12")
 
+CLAIMED["C16"] = dict(
+   text="Bounded model checking over symbolic source text: every input of n bytes (quick: 2 bytes over all of ASCII and 3 bytes over the dice alphabet; thorough: 3 / 4) runs through the real PEG engine with the configuration flags as symbolic booleans; for each accepted path the compiled bytecode (including nested function / computed bodies) is inspected and 'a family / statement / operator opcode is present' implies 'its flag admits it' is a verification condition decided by SMT for all flag values. Macro harness: #EnableDice macros in every position with symbolic initial flags leave Config unchanged and do not leak into the next evaluation.",
+   note="Inputs longer than n bytes are outside the claim (the 20-byte macro cannot occur in them, so 'lacking an enabling macro' holds trivially; macros are covered by the concrete macro programs). Flags are symbolic in two groups (Enable* or Disable*), not all seven at once. Syntax-error formatting is stubbed in the gate harnesses (covered by C19).",
+   technique="symbolic execution of the PEG parser on symbolic bytes + SMT over flag booleans",
+   ref="DESIGN.md §5 C16")
+
 NA = {
 }
 
